@@ -515,8 +515,12 @@ func runWaitersCase(ctx *Ctx, specs [][2]interface{}, script []string) {
 					c.nontriv = true
 				}
 				casRec := kvs.Record{Key: f[1], Value: []byte("s"), Version: ver}
+				if f[2] == "same" || f[2] == "samex" {
+					// the value stays what it is, only the version (and the expiry) moves: a lease refresh
+					casRec.Value = append([]byte{}, cur.Value...)
+				}
 				casEx := -1
-				if f[2] == "currentx" {
+				if f[2] == "currentx" || f[2] == "samex" {
 					c.mu.Lock()
 					casEx = c.vnow + 12
 					c.mu.Unlock()
@@ -716,10 +720,10 @@ func runWaiters(ctx *Ctx) {
 				script = append(script, "putx "+k)
 			case x < 70:
 				script = append(script, "create "+k)
-			case x < 74:
-				script = append(script, "cas "+k+" current")
+			case x < 73:
+				script = append(script, "cas "+k+" "+[]string{"current", "same"}[r.Intn(2)])
 			case x < 76:
-				script = append(script, "cas "+k+" currentx")
+				script = append(script, "cas "+k+" "+[]string{"currentx", "samex"}[r.Intn(2)])
 			case x < 78:
 				script = append(script, []string{"get " + k, "getmany", "list"}[r.Intn(3)])
 			case x < 83:
@@ -753,7 +757,16 @@ func runWaiters(ctx *Ctx) {
 			}
 			script = append(script, "release 0")
 			for i := 0; i < r.Range(1, 3); i++ {
-				script = append(script, []string{"put a", "delete a", "cancel 1", "cas a current"}[r.Intn(4)])
+				script = append(script, []string{"put a", "delete a", "cancel 1", "cas a current", "cas a samex", "cas a same"}[r.Intn(6)])
+			}
+		}
+		if r.Chance(1, 8) {
+			// directed: a lease refresh (CasByVersion with the SAME value, with or without an expiry) while waiters are
+			// parked on the key: a new version is a change whatever the value is
+			specs = [][2]interface{}{{"a", 1}, {"a", 1}}
+			script = []string{[]string{"put a", "putx a"}[r.Intn(2)], "start 0", "start 1", "cas a " + []string{"samex", "same", "samex"}[r.Intn(3)]}
+			if r.Chance(1, 2) {
+				script = append(script, "cas a samex")
 			}
 		}
 		if r.Chance(1, 8) {
